@@ -163,7 +163,9 @@ def special_dates():
 def cases_roundtrip(tier):
     def gen():
         out = []
-        zones = vclock.ZONES if tier == "thorough" else vclock.QUICK_ZONES
+        # zones whose clocks change AT local midnight (the day has no 00:00-00:59, or has it twice) are in the quick tier too
+        zones = vclock.ZONES if tier == "thorough" else list(vclock.QUICK_ZONES) + [z for z in ("America/Havana", "America/Santiago", "Africa/Cairo")
+                                                                                    if z in vclock.ZONES and z not in vclock.QUICK_ZONES]
         for zname in zones:
             trans = vclock.transition_days(zname)
             if tier == "thorough":
